@@ -65,6 +65,7 @@ fn with_world<R>(id: &str, f: impl FnOnce(&dyn Dispatch) -> R) -> Option<R> {
         "C13" => Some(f(&c13::C13::new())),
         "C18" => Some(f(&c18::C18::new())),
         "C19" => Some(f(&c19::C19::new())),
+        "C20" => Some(f(&c20::C20::new())),
         _ => None,
     }
 }
